@@ -1,6 +1,7 @@
 package chainsim
 
 import (
+	"github.com/ovrclk/akash/types"
 	"bytes"
 	"encoding/hex"
 	"fmt"
@@ -21,6 +22,10 @@ type checkerSet struct {
 	r    *core.Run
 	w    *World
 	c17  *certModel
+	// C08: what auditors signed and providers declared, kept from the successful transactions alone
+	// (owner|auditor -> key -> value; owner -> declared attributes)
+	att      map[string]map[string]string
+	declared map[string]types.Attributes
 	// C07: per-transaction result digests and per-block app hashes of replica 0
 	txHashes  []string
 	appHashes []string
@@ -29,7 +34,7 @@ type checkerSet struct {
 }
 
 func newChecker(prop string, w *World) *checkerSet {
-	return &checkerSet{prop: prop, r: w.R, w: w, c17: newCertModel()}
+	return &checkerSet{prop: prop, r: w.R, w: w, c17: newCertModel(), att: map[string]map[string]string{}, declared: map[string]types.Attributes{}}
 }
 
 func (cs *checkerSet) AfterTx(c *TxCtx) *core.Violation {
